@@ -25,36 +25,51 @@ type Access struct {
 // number the write), so that it can never be mistaken for an address signature.
 const WriteTagBit = uint64(1) << 62
 
+// AgentSpec is the immutable configuration of a traffic agent.
+type AgentSpec struct {
+	Mem      bool   `json:"mem"`       // memory accesses (to the AT) or translation requests
+	Window   int    `json:"window"`    // outstanding requests allowed
+	Log2Page uint64 `json:"log2_page"` // page size of the stack
+	Dst      string `json:"dst"`       // the Top port the agent talks to
+	Index    int    `json:"index"`     // position among the stack's agents (numbers the write tags)
+}
+
+// AgentState is the agent's progress.  It is the component's checkpointed State, so
+// that a resumed run continues the same stream: the script not sent yet, the IDs of
+// the requests still unanswered, and the counters.
+type AgentState struct {
+	Queue       []Access `json:"queue"`
+	Outstanding []uint64 `json:"outstanding"`
+	Sent        int      `json:"sent"`
+	Received    int      `json:"received"`
+	Foreign     int      `json:"foreign"`
+	Tags        uint64   `json:"tags"`
+}
+
 // Agent is a ticking traffic source with a bounded number of outstanding requests.
 type Agent struct {
-	*modeling.Component[struct{}, struct{}, modeling.None]
-	s        *Stack
-	name     string
-	mem      bool // memory accesses (to the AT) or translation requests
-	port     messaging.Port
-	dst      messaging.RemotePort
-	window   int
-	queue    []Access
-	Sent     int
-	Received int
-	Foreign  int
-	nextTag  *uint64
+	*modeling.Component[AgentSpec, AgentState, modeling.None]
+	name string
+	port messaging.Port
 }
 
 type agentMW struct{ a *Agent }
 
-func newAgent(s *Stack, ac AgentCfg, l *Level) *Agent {
-	a := &Agent{s: s, name: ac.Name, nextTag: &s.wtag, mem: l.Kind == "at", dst: l.Top.AsRemote(), window: pos(ac.Window, 4)}
-	a.Component = modeling.NewBuilder[struct{}, struct{}, modeling.None]().
-		WithEngine(s.Engine).WithFreq(1 * timing.GHz).WithSpec(struct{}{}).Build(s.Cfg.Name + "." + ac.Name)
+func newAgent(s *Stack, reg modeling.Registrar, ac AgentCfg, l *Level, index int) *Agent {
+	a := &Agent{name: ac.Name}
+	a.Component = modeling.NewBuilder[AgentSpec, AgentState, modeling.None]().
+		WithEngine(s.Engine).WithFreq(1 * timing.GHz).
+		WithSpec(AgentSpec{Mem: l.Kind == "at", Window: pos(ac.Window, 4), Log2Page: s.Cfg.Log2Page,
+			Dst: string(l.Top.AsRemote()), Index: index}).Build(s.Cfg.Name + "." + ac.Name)
 	a.AddMiddleware(&agentMW{a: a})
-	if a.mem {
+	if l.Kind == "at" {
 		a.DeclarePort("Out", memprotocol.Requester)
 	} else {
 		a.DeclarePort("Out", vmprotocol.Requester)
 	}
-	b := pos(ac.Buf, 2)
-	a.port = messaging.NewPort(a, b, b, s.Cfg.Name+"."+ac.Name+".Out")
+	reg.RegisterComponent(a.Component)
+	a.port = modeling.MakePortBuilder().WithRegistrar(reg).WithComponent(a.Component).
+		WithSpec(modeling.PortSpec{BufSize: pos(ac.Buf, 2)}).Build("Out")
 	a.AssignPort("Out", a.port)
 	return a
 }
@@ -67,46 +82,60 @@ func (a *Agent) AgentName() string { return a.name }
 
 // Enqueue appends accesses to the agent's script and wakes it up.
 func (a *Agent) Enqueue(acc []Access) {
-	a.queue = append(a.queue, acc...)
+	a.State.Queue = append(a.State.Queue, acc...)
 	a.TickLater()
 }
 
 // Pending is the number of scripted accesses not sent yet.
-func (a *Agent) Pending() int { return len(a.queue) }
+func (a *Agent) Pending() int { return len(a.State.Queue) }
+
+// Sent is the number of requests issued so far.
+func (a *Agent) Sent() int { return a.State.Sent }
 
 func (m *agentMW) Tick() bool {
 	a := m.a
+	st := &a.State
 	progress := false
 	for msg := a.port.RetrieveIncoming(); msg != nil; msg = a.port.RetrieveIncoming() {
 		progress = true
 		switch msg.(type) {
 		case vmprotocol.TranslationRsp, memprotocol.DataReadyRsp, memprotocol.WriteDoneRsp:
-			a.Received++
+			st.Received++
+			to := msg.Meta().RspTo
+			for i, id := range st.Outstanding {
+				if id == to {
+					st.Outstanding = append(st.Outstanding[:i], st.Outstanding[i+1:]...)
+					break
+				}
+			}
 		default:
-			a.Foreign++
+			st.Foreign++
 		}
 	}
-	for len(a.queue) > 0 && a.Sent-a.Received < a.window && a.port.CanSend() {
-		x := a.queue[0]
-		a.queue = a.queue[1:]
-		a.port.Send(a.message(x))
-		a.Sent++
+	for len(st.Queue) > 0 && st.Sent-st.Received < a.Spec().Window && a.port.CanSend() {
+		x := st.Queue[0]
+		st.Queue = st.Queue[1:]
+		msg := a.message(x)
+		st.Outstanding = append(st.Outstanding, msg.Meta().ID)
+		a.port.Send(msg)
+		st.Sent++
 		progress = true
 	}
 	return progress
 }
 
 func (a *Agent) message(x Access) messaging.Msg {
-	vaddr := x.VPN<<a.s.Cfg.Log2Page + x.Off
-	meta := messaging.MsgMeta{ID: timing.GetIDGenerator().Generate(), Src: a.port.AsRemote(), Dst: a.dst}
+	spec := a.Spec()
+	vaddr := x.VPN<<spec.Log2Page + x.Off
+	meta := messaging.MsgMeta{ID: timing.GetIDGenerator().Generate(), Src: a.port.AsRemote(), Dst: messaging.RemotePort(spec.Dst)}
 	switch {
-	case !a.mem:
+	case !spec.Mem:
 		meta.TrafficClass = "vmprotocol.TranslationReq"
 		return vmprotocol.TranslationReq{MsgMeta: meta, VAddr: vaddr, PID: vm.PID(x.PID), DeviceID: 1}
 	case x.Write:
-		*a.nextTag++
+		a.State.Tags++
 		data := make([]byte, 8)
-		binary.LittleEndian.PutUint64(data, WriteTagBit|*a.nextTag)
+		binary.LittleEndian.PutUint64(data, WriteTagBit|uint64(spec.Index)<<40|a.State.Tags)
 		meta.TrafficClass = "memprotocol.WriteReq"
 		meta.TrafficBytes = 20
 		return memprotocol.WriteReq{MsgMeta: meta, Address: vaddr, PID: vm.PID(x.PID), Data: data}
